@@ -790,6 +790,18 @@ fn run_tier<C: Check>(check: &C, tier: Tier) -> i32 {
         eprintln!("HARNESS-ERROR: cannot write evidence {}: {e}", evfile.display());
         return 2;
     }
+    // keep a copy per tier (the main file is rewritten by every run)
+    let tiers = evdir.join("tiers");
+    let _ = std::fs::create_dir_all(&tiers);
+    let _ = std::fs::copy(
+        &evfile,
+        tiers.join(format!(
+            "{}{}.{}.json",
+            check.id(),
+            if check.leg().is_empty() { String::new() } else { format!(".{}", check.leg()) },
+            tier.name()
+        )),
+    );
     println!(
         "property={} tier={} runs={total} distinct_nontrivial={distinct} violations={unknown} known={} wall={wall:.1}s evidence={}",
         check.id(),
